@@ -196,6 +196,45 @@ pub fn generate(w: &mut dyn Write, seed: u64, thorough: bool) {
             }
         }
     }
+    // ---- dimension audit (seeded/audit/aud-vm.md), VMess-style reader: names at the length limits with the buffer one byte short /
+    // exact / longer, the empty name, every class of invalid UTF-8 at the start, in the middle and cut off at the end of a name,
+    // each type byte with nothing behind it, port extremes ----
+    for l in [0usize, 1, 2, 127, 128, 254, 255] {
+        for class in [0u64, 1, 2] {
+            let h = host_of(&mut rng, l, class);
+            let mut x = vec![0xffu8, 0xff, 2, l as u8];
+            x.extend_from_slice(&h);
+            crate::emit_case(w, &["vmr".into(), hex(&x)], exec);
+            if l > 0 {
+                crate::emit_case(w, &["vmr".into(), hex(&x[..x.len() - 1])], exec);
+            }
+            x.extend_from_slice(&rng.bytes_of(&[1usize, 4, 300]));
+            crate::emit_case(w, &["vmr".into(), hex(&x)], exec);
+        }
+    }
+    let bad: [&[u8]; 12] = [&[0xff], &[0x80], &[0xc3], &[0xc0, 0xaf], &[0xc1, 0xbf], &[0xe0, 0x80, 0x80], &[0xed, 0xa0, 0x80], &[0xed, 0xbf, 0xbf], &[0xf0, 0x80, 0x80, 0x80], &[0xf4, 0x90, 0x80, 0x80], &[0xf8, 0x88, 0x80, 0x80, 0x80], &[0xe2, 0x82]];
+    let good: [&[u8]; 6] = [&[0xc2, 0x80], &[0xdf, 0xbf], &[0xe0, 0xa0, 0x80], &[0xed, 0x9f, 0xbf], &[0xf0, 0x90, 0x80, 0x80], &[0xf4, 0x8f, 0xbf, 0xbf]];
+    for seq in bad.iter().chain(good.iter()) {
+        for (pre, post) in [(0usize, 0usize), (3, 0), (0, 3), (2, 2), (255 - seq.len(), 0)] {
+            let mut h = vec![b'a'; pre];
+            h.extend_from_slice(seq);
+            h.extend(vec![b'z'; post]);
+            let mut x = vec![1u8, 0xbb, 2, h.len() as u8];
+            x.extend_from_slice(&h);
+            x.extend_from_slice(&rng.bytes_of(&[0usize, 2]));
+            crate::emit_case(w, &["vmr".into(), hex(&x)], exec);
+        }
+    }
+    for t in [1u8, 2, 3] {
+        for port in [[0u8, 0], [0xff, 0xff]] {
+            crate::emit_case(w, &["vmr".into(), hex(&[port[0], port[1], t])], exec);
+            let need = [0usize, 4, 1, 16][t as usize];
+            let mut x = vec![port[0], port[1], t];
+            x.extend(vec![0u8; need]);
+            crate::emit_case(w, &["vmr".into(), hex(&x)], exec);
+            crate::emit_case(w, &["vmr".into(), hex(&x[..x.len() - 1])], exec);
+        }
+    }
     // malformed stream: random bytes, all type bytes, invalid UTF-8 hosts
     for t in 0..=255u8 {
         let mut x = vec![t];
